@@ -93,7 +93,7 @@ func (p *policy) buildRootPool() {
 
 		log.Info("+ created pool %s", vroot.Name())
 
-		cpus := p.sys.CPUSet()
+		cpus := p.sys.CPUSet().Difference(p.sys.Offlined())
 		vroot.node.noderes, vroot.node.freeres = p.getCpuSupply(vroot, cpus)
 		vroot.node.mem, vroot.node.pMem, vroot.node.hbm = p.getMemSupply(vroot, cpus)
 	} else {
